@@ -19,6 +19,8 @@ Trace == F64NdJson(IOEnv.TRACE_FILE)
 EqX(a, b, s) == FCloseS(a, b, s, Lit("1e-12"))
 EqR(a, b, s) == FCloseS(a, b, s, Lit("1e-9"))
 VARIABLE l
+PF == INSTANCE PVFunction WITH Add <- FAdd, Sub <- FSub, Mul <- FMul, Div <- FDiv, Lt <- FLt, Le <- FLe,
+                               Eq <- EqR, Dec <- Lit, Exp <- FExp, PowInt <- FPowInt
 Pr == INSTANCE Process WITH Add <- FAdd, Sub <- FSub, Mul <- FMul, Div <- FDiv, Lt <- FLt, Le <- FLe,
                             Eq <- EqX, Dec <- Lit, Num <- FromInt, Dev <- "none",
                             run <- l, time <- l, m <- l, x <- l, T <- l, J <- l, y <- l, P <- l, Qe <- l, Qc <- l, pc <- l
@@ -37,7 +39,7 @@ One == Lit("1.0")
 Zero == Lit("0.0")
 Fin(v) == FIsFinite(v)
 
-KnownEvent == /\ E.ev \in {"Start", "State", "End", "Step0Twin"}
+KnownEvent == /\ E.ev \in {"Start", "State", "End", "Step0Twin", "NIStart", "NIPoint", "NIEnd"}
               /\ (IsState => E.k = E.i - 1)                        \* steps are reported in order, none missing
 
 (* ------------------------------------ C01 ------------------------------------ *)
@@ -86,4 +88,31 @@ Cl_Step0Reproduces == (IsState /\ E.k = 0 /\ ~O.ideal) =>
                  IF O.P0given THEN EqR(E.P1, O.P0kg[1], E.P1) /\ EqR(E.P2, O.P0kg[2], E.P2)
                  ELSE EqR(E.P1, E.F[1], E.P1) /\ EqR(E.P2, E.F[2], E.P2)
 Cl_PermUnits == IsState => E.Punits = "kg/(m2*h*kPa)"
+
+\* the returned function is the one the public best-fit search produces (oracle fits_orc); with a single curve at
+\* temperature Tc it is that function at Tc times the Arrhenius factor of the membrane's activation energy
+Expected(o, i, xx, TT, rebased) ==
+  IF rebased THEN PF!ArrheniusOfCurve(o.fits_orc[i], xx, TT, o.Ea[i], o.Tcurve) ELSE PF!Value(o.fits_orc[i], xx, TT)
+\* process models: the isothermal one re-bases only when the curve temperature differs from the feed temperature
+ProcRebased == O.single /\ (~O.iso \/ ~FEqNum(O.Tcurve, O.T0))
+SameFit(f, g) == /\ EqR(f.alpha, g.alpha, f.alpha) /\ Len(f.a) = Len(g.a) /\ Len(f.b) = Len(g.b)
+                 /\ \A j \in 1..Len(f.a) : EqR(f.a[j], g.a[j], FMax(FAbs(f.a[j]), Lit("1e-6")))
+                 /\ \A j \in 1..Len(f.b) : EqR(f.b[j], g.b[j], FMax(FAbs(f.b[j]), Lit("1e-6")))
+Cl_FitIsBestFit == /\ ((E.ev = "Start" /\ E.hasFits /\ ~(E.single /\ (~E.iso \/ ~FEqNum(E.Tcurve, E.T0)))) =>
+                         SameFit(E.fits_ret[1], E.fits_orc[1]) /\ SameFit(E.fits_ret[2], E.fits_orc[2]))
+                   /\ ((IsState /\ O.hasFits) =>
+                         /\ EqR(E.F[1], Expected(O, 1, E.x, E.T, ProcRebased), E.F[1])
+                         /\ EqR(E.F[2], Expected(O, 2, E.x, E.T, ProcRebased), E.F[2]))
+\* the same for the curve model (it returns no fit objects: the oracle is the only handle)
+NIRebased == O.single /\ ~FEqNum(O.Tcurve, O.T)
+N0 == Trace[l - E.i + 1]                    \* point 0 of the curve
+Cl_NI_PermFollowsFit == (E.ev = "NIPoint" /\ E.j >= 1) =>
+                   \A i \in 1..2 : EqR(FMul(E.P[i], Expected(O, i, N0.x, O.T, NIRebased)),
+                                       FMul(Expected(O, i, E.x, O.T, NIRebased), N0.P[i]),
+                                       FMul(E.P[i], Expected(O, i, N0.x, O.T, NIRebased)))
+Cl_NI_Step0 == (E.ev = "NIPoint" /\ E.j = 0) =>
+                   /\ EqR(E.x, O.x0w, One) /\ E.xtype = "weight"
+                   /\ IF O.P0given THEN EqR(E.P[1], O.P0kg[1], E.P[1]) /\ EqR(E.P[2], O.P0kg[2], E.P[2])
+                      ELSE \A i \in 1..2 : EqR(E.P[i], Expected(O, i, E.x, O.T, NIRebased), E.P[i])
+Cl_NI_Len == (E.ev = "NIEnd") => (E.nx = E.nP /\ E.nx = E.nJ /\ E.nx = O.N + 1 /\ E.i = E.nx + 1)
 =============================================================================
